@@ -191,11 +191,41 @@ def harness_build(which='harness'):
 
 # --------------------------------------------------------------------------- running cases
 
+STALL_SECS = int(os.environ.get('HARNESS_STALL_SECS', '420'))
+
+
 def _run_chunk(args):
+    """Runs one process over a chunk of cases.  The harnesses flush their output after every case; a process that prints
+    nothing for STALL_SECS (the longest single case takes about a minute) is hung: it is killed and rc = 'hung'."""
+    import threading
     binary, text = args
-    p = subprocess.run([binary], input=text, stdout=subprocess.PIPE, stderr=subprocess.PIPE,
-                       text=True, env=ENV)
-    return p.returncode, p.stdout, p.stderr[-2000:]
+    p = subprocess.Popen([binary], stdin=subprocess.PIPE, stdout=subprocess.PIPE, stderr=subprocess.PIPE, text=True, env=ENV)
+    out_lines, err, last = [], [], [time.time()]
+
+    def feed():
+        try:
+            p.stdin.write(text); p.stdin.close()
+        except Exception:
+            pass
+
+    def rd():
+        for line in p.stdout:
+            out_lines.append(line); last[0] = time.time()
+
+    def rde():
+        err.append(p.stderr.read())
+
+    ths = [threading.Thread(target=f, daemon=True) for f in (feed, rd, rde)]
+    for t in ths: t.start()
+    hung = False
+    while True:
+        try:
+            p.wait(timeout=2); break
+        except subprocess.TimeoutExpired:
+            if time.time() - last[0] > STALL_SECS:
+                hung = True; p.kill(); p.wait(); break
+    for t in ths[1:]: t.join(timeout=10)
+    return ('hung' if hung else p.returncode), ''.join(out_lines), (err[0] if err else '')[-2000:]
 
 
 def run_side(binary, cases, jobs=None, per_case_process=False):
@@ -234,6 +264,23 @@ def run_side(binary, cases, jobs=None, per_case_process=False):
     def work(idx):
         rc, out, err = _run_chunk((binary, text_of(idx)))
         if rc == 0 and split_out(idx, out):
+            return
+        if rc == 'hung':
+            # the cases whose output is complete are kept, the first incomplete one is the case that hangs, the rest is run again
+            lines = out.split('\n')
+            if lines and lines[-1] == '':
+                lines.pop()
+            pos = 0
+            for k, i in enumerate(idx):
+                n_i = len(cases[i])
+                seg = lines[pos:pos + n_i]
+                if len(seg) == n_i and seg[-1] == 'end':
+                    results[i] = seg; pos += n_i
+                    continue
+                results[i] = ['crash rc=hung: no output for %d s (the call never returned); output so far: %s' % (STALL_SECS, ' | '.join(seg)[-300:])] * n_i
+                if idx[k + 1:]:
+                    work(idx[k + 1:])
+                return
             return
         if len(idx) == 1:
             results[idx[0]] = ['crash rc=%s %s' % (rc, err.strip().replace('\n', ' | ')[-300:])] * len(cases[idx[0]])
